@@ -24,8 +24,8 @@ theorem slice_spec_int (x r : Range Int) (hx : x.b ≤ x.e) (hr : r.b ≤ r.e) :
 theorem expand_spec_int (x r : Range Int) (hx : x.b ≤ x.e) (hr : r.b ≤ r.e) :
     (r.b ≤ x.e ∧ x.b ≤ r.e → ∀ p, mem p (x.expandWith r) ↔ mem p x ∨ mem p r) ∧
     (¬ (r.b ≤ x.e ∧ x.b ≤ r.e) → x.expandWith r = x) := ⟨(expand_spec x r hx hr).1, (expand_spec x r hx hr).2.1⟩
-theorem range_preds_int (x r : Range Int) (hx : x.b ≤ x.e) (hr : r.b ≤ r.e) : RangePreds x r :=
-  range_preds x r hx hr
+theorem range_preds_partial_int (x r : Range Int) (hx : x.b ≤ x.e) (hr : r.b ≤ r.e) : RangePreds x r :=
+  range_preds_partial x r hx hr
 theorem comparator_consistent_int (x y z : Range Int) (hx : x.b ≤ x.e) (hy : y.b ≤ y.e) (hz : z.b ≤ z.e)
     (hxy : Disj x y) (hyz : Disj y z) (hxz : Disj x z) : StrictWeakAt x y z :=
   comparator_consistent x y z hx hy hz hxy hyz hxz
@@ -42,6 +42,28 @@ theorem shift_mono_int (x : Range Int) (v : Int) (hx : x.b ≤ x.e) :
 theorem length_nonneg_int (a b : Int) : 0 ≤ (Range.make a b).length ∧
     (Range.make a b).length = (a - b).natAbs := by
   simp only [Range.make, Range.length]; omega
+
+/-- **overlap_empty_operand_witness** (known finding): `Range(3,3).overlap(Range(1,5))` and
+`Range(1,5).overlap(Range(3,3))` are true although `[3,3[` has no point — the full-strength
+`overlap_iff` (empty operands included) is false of the code -/
+theorem overlap_empty_operand_witness :
+    (⟨3, 3⟩ : Range Int).overlap ⟨1, 5⟩ = true ∧ (⟨1, 5⟩ : Range Int).overlap ⟨3, 3⟩ = true ∧
+    (∀ p, ¬ mem p (⟨3, 3⟩ : Range Int)) ∧
+    ¬ ((⟨3, 3⟩ : Range Int).overlap ⟨1, 5⟩ = true ↔ ∃ p, mem p (⟨3, 3⟩ : Range Int) ∧ mem p (⟨1, 5⟩ : Range Int)) := by
+  have hno : ∀ p, ¬ mem p (⟨3, 3⟩ : Range Int) := by intro p; simp only [mem]; omega
+  refine ⟨by decide, by decide, hno, ?_⟩
+  intro h
+  obtain ⟨p, hp, _⟩ := h.mp (by decide)
+  exact hno p hp
+
+/-- **contains_empty_range_witness** (known finding): `Range(1,5).contains(Range(7,7))` is false
+although every point of the empty `[7,7[` is a point of `[1,5[` — the full-strength `contains_iff`
+(empty argument included) is false of the code -/
+theorem contains_empty_range_witness :
+    (⟨1, 5⟩ : Range Int).contains ⟨7, 7⟩ = false ∧
+    (∀ p, mem p (⟨7, 7⟩ : Range Int) → mem p (⟨1, 5⟩ : Range Int)) := by
+  refine ⟨by decide, ?_⟩
+  intro p hp; simp only [mem] at hp; omega
 
 /-- outside the property's universe: with a negative coordinate, the `[0,0[` produced by
 `sliceWith` and the range `[-2,3[` are each "less" than the other -/
@@ -127,8 +149,8 @@ theorem slice_spec_uint (x r : Range UInt32) (hx : x.b ≤ x.e) (hr : r.b ≤ r.
 theorem expand_spec_uint (x r : Range UInt32) (hx : x.b ≤ x.e) (hr : r.b ≤ r.e) :
     (r.b ≤ x.e ∧ x.b ≤ r.e → ∀ p, mem p (x.expandWith r) ↔ mem p x ∨ mem p r) ∧
     (¬ (r.b ≤ x.e ∧ x.b ≤ r.e) → x.expandWith r = x) := ⟨(expand_spec x r hx hr).1, (expand_spec x r hx hr).2.1⟩
-theorem range_preds_uint (x r : Range UInt32) (hx : x.b ≤ x.e) (hr : r.b ≤ r.e) : RangePreds x r :=
-  range_preds x r hx hr
+theorem range_preds_partial_uint (x r : Range UInt32) (hx : x.b ≤ x.e) (hr : r.b ≤ r.e) : RangePreds x r :=
+  range_preds_partial x r hx hr
 theorem comparator_consistent_uint (x y z : Range UInt32) (hx : x.b ≤ x.e) (hy : y.b ≤ y.e) (hz : z.b ≤ z.e)
     (hxy : Disj x y) (hyz : Disj y z) (hxz : Disj x z) : StrictWeakAt x y z :=
   comparator_consistent x y z hx hy hz hxy hyz hxz
@@ -264,8 +286,8 @@ theorem slice_spec_rat (x r : Range Rat) (hx : x.b ≤ x.e) (hr : r.b ≤ r.e) :
 theorem expand_spec_rat (x r : Range Rat) (hx : x.b ≤ x.e) (hr : r.b ≤ r.e) :
     (r.b ≤ x.e ∧ x.b ≤ r.e → ∀ p, mem p (x.expandWith r) ↔ mem p x ∨ mem p r) ∧
     (¬ (r.b ≤ x.e ∧ x.b ≤ r.e) → x.expandWith r = x) := ⟨(expand_spec x r hx hr).1, (expand_spec x r hx hr).2.1⟩
-theorem range_preds_rat (x r : Range Rat) (hx : x.b ≤ x.e) (hr : r.b ≤ r.e) : RangePreds x r :=
-  range_preds x r hx hr
+theorem range_preds_partial_rat (x r : Range Rat) (hx : x.b ≤ x.e) (hr : r.b ≤ r.e) : RangePreds x r :=
+  range_preds_partial x r hx hr
 theorem comparator_consistent_rat (x y z : Range Rat) (hx : x.b ≤ x.e) (hy : y.b ≤ y.e) (hz : z.b ≤ z.e)
     (hxy : Disj x y) (hyz : Disj y z) (hxz : Disj x z) : StrictWeakAt x y z :=
   comparator_consistent x y z hx hy hz hxy hyz hxz
